@@ -76,8 +76,10 @@ def gen_case(rng, cid):
             if rng.random() < 0.15 and ws:
                 # call-time widths override the definition-time ones
                 call["boundary_width"] = {"k": "m", "v": [[d, rng.randint(0, 2), rng.randint(0, 2)] for d, _, _ in ws]}
-        room = all(plen(p, axd[bind[d]]["n"]) - sum(lo + hi for dd, lo, hi in ws if dd == d) >= 1 for o in outs for d, p in o)
-        if rng.random() < 0.1 and room and all(all(d in [x for x, _ in o] for d, _, _ in ws) for o in outs):
+        # widths in force: those given at call time override the ones bound at definition time
+        eff = call["boundary_width"]["v"] if call["boundary_width"]["k"] == "m" else (dfn["boundary_width"]["v"] if dfn["boundary_width"]["k"] == "m" else [])
+        room = all(plen(p, axd[bind[d]]["n"]) - sum(lo + hi for dd, lo, hi in eff if dd == d) >= 1 for o in outs for d, p in o)
+        if rng.random() < 0.1 and room and all(all(d in [x for x, _ in o] for d, _, _ in eff) for o in outs):
             # padding after the function: every output must carry the axes the widths name
             (call if how == "apply" or rng.random() < 0.5 else dfn)["pad_before_func"] = S(False)
         c = {"id": cid, "ev": "Ufunc", "grid": grid, "sig": {"ins": ins, "outs": outs}, "axis": axis, "inputs": inputs,
